@@ -126,6 +126,20 @@ func (c *Ctx) kernel(name string, inline ...string) *Result {
 		c.Kernels[key] = nil
 		return nil
 	}
+	return c.kernelOf(fn, key, inline...)
+}
+
+// kernelFn: kernel of an already resolved function.
+func (c *Ctx) kernelFn(fn *ssa.Function, inline ...string) *Result {
+	key := fn.String() + "|" + strings.Join(inline, ",")
+	if r, ok := c.Kernels[key]; ok {
+		return r
+	}
+	return c.kernelOf(fn, key, inline...)
+}
+
+func (c *Ctx) kernelOf(fn *ssa.Function, key string, inline ...string) *Result {
+	name := shortFn(fn)
 	en := NewEngine(c.P)
 	set := map[*ssa.Function]bool{}
 	excl := map[*ssa.Function]bool{}
